@@ -159,6 +159,12 @@ def check_big(v):
     if isinstance(v, Fraction):
         if abs(v) > BIG or v.denominator > BIG:
             raise Fragile()
+        if v.denominator != 1 and v.numerator.bit_length() > 53:
+            # a non-integer that needs more bits than a double has (2147483648 - 2 / 2147483648): the
+            # library, whose non-integers are doubles, cannot hold it either; carrying it exactly
+            # would make this evaluator disagree with correct float arithmetic. It becomes the
+            # nearest double, and comparisons on it go through the noise band like any inexact value.
+            return float(v)
     else:
         if math.isnan(v) or math.isinf(v) or abs(v) > 1e30:
             raise Fragile()
